@@ -185,6 +185,34 @@ fn first_diff_line(a: &str, b: &str) -> usize {
     i
 }
 
+fn list_ids(t: &liwe::model::tree::Tree, out: &mut Vec<u64>) {
+    if t.is_list() { if let Some(i) = t.id { out.push(i); } }
+    for c in &t.children { list_ids(c, out); }
+}
+
+/// position (in document order, among the lists of the note) of the list that surrounds node `id`
+fn list_position(graph: &Graph, key: &str, id: u64) -> Option<usize> {
+    catch_unwind(AssertUnwindSafe(|| {
+        let t = graph.collect(&Key::name(key));
+        let l = t.get_surrounding_list_id(id)?;
+        let mut ids = vec![];
+        list_ids(&t, &mut ids);
+        ids.iter().position(|x| *x == l)
+    }))
+    .unwrap_or(None)
+}
+
+fn same_list_line(before: &Graph, after: &Graph, s2: &Server, key: &str, id: u64, from: usize, lines: usize) -> usize {
+    let want = match list_position(before, key, id) { Some(p) => p, None => return from };
+    for l in from..lines.min(from + 200) {
+        if let Ok(Some(ca)) = offer(s2, key, l, 7) {
+            let id2 = ca.data.as_ref().and_then(|d| d.as_u64()).unwrap_or(u64::MAX);
+            if list_position(after, key, id2) == Some(want) { return l; }
+        }
+    }
+    from
+}
+
 fn is_self_ref(graph: &Graph, key: &str, id: u64) -> bool {
     catch_unwind(AssertUnwindSafe(|| {
         graph.collect(&Key::name(key)).find(id).and_then(|t| t.node.reference_key()).map(|k| k.to_string() == key).unwrap_or(false)
@@ -312,6 +340,11 @@ pub fn execute(v: &Value, kinds: &[usize]) -> String {
                                 if let Och::Update(k, t) = c { ok &= did_change(&mut s2, k, t).is_ok(); }
                             }
                             if ok {
+                                // change-list-type twice: the second request has to reach the SAME list.  The first
+                                // changed line is the first line of that list, but the node found there may sit in
+                                // a quote or nested list that leads the first item; the request is then made at the
+                                // first later line whose action targets the list with the same pre-order position
+                                let line2 = if k2 == 7 { same_list_line(&graph, &g1, &s2, &key, id, line2, line_count(&new_text)) } else { line2 };
                                 let off2 = offer(&s2, &key, line2, k2);
                                 // an inline-section that would not terminate is not attempted as a second step
                                 if let Ok(Some(ca2)) = &off2 {
